@@ -279,3 +279,15 @@ package pilosa
 //@   ensures changed ==> !haskey(f.checksums, rowID / 100)
 //@   ensures changed ==> f.rowCache.$row[rowID] == nil
 //@   ensures changed && f.CacheType != CacheTypeNone ==> (f.cache.$cnt[rowID] == cardRange(f.storage.$set, rowID * 1048576, (rowID + 1) * 1048576) || f.cache.$cnt[rowID] == 0)
+
+// ---- C06: internal cluster messages (safety only) -------------------------------------
+// A resize-instruction completion arrives in a cluster message from another node and
+// names a job id chosen by the sender: it must be answered with an error, not a panic,
+// when this node has no such job (late, duplicated or forged completion).
+//@ contract (*cluster).markResizeInstructionComplete props C06
+//@   requires c != nil && complete != nil
+//@   requires forall id :: haskey(c.jobs, id) && c.jobs[id] != nil ==> c.jobs[id].IDs != nil
+//@ contract (*cluster).job props C06
+//@   requires c != nil
+//@   ensures result == nil || (haskey(c.jobs, id) && result == c.jobs[id] && !fresh(result))
+//@   modifies nothing
